@@ -34,10 +34,19 @@ type Solver struct {
 
 var slowLog = os.Getenv("VERIF_SLOWLOG")
 
+// per-query solver time limit; a query that hits it answers unknown, which
+// makes the run inconclusive (never a pass)
+var queryTimeoutMS = func() int {
+	if v, err := strconv.Atoi(os.Getenv("VERIF_QUERY_TIMEOUT_MS")); err == nil && v > 0 {
+		return v
+	}
+	return 60000
+}()
+
 func solverCommand(kind string) (string, []string) {
 	switch kind {
 	case "cvc5":
-		return "cvc5", []string{"--incremental", "--lang", "smt2", "--produce-models"}
+		return "cvc5", []string{"--incremental", "--lang", "smt2", "--produce-models", fmt.Sprintf("--tlimit-per=%d", queryTimeoutMS)}
 	case "z3-new":
 		return "z3-new", []string{"-in"}
 	}
@@ -57,6 +66,7 @@ func NewSolver(kind string, seed int) *Solver {
 		kind: kind, emit: map[*Term]bool{}, ufDecl: map[string]bool{}, scopes: [][]*Term{nil}, ufs: [][]string{nil}}
 	if kind != "cvc5" {
 		s.send("(set-option :produce-models true)")
+		s.send(fmt.Sprintf("(set-option :timeout %d)", queryTimeoutMS))
 		if seed != 0 {
 			s.send(fmt.Sprintf("(set-option :smt.random_seed %d)", seed%100000))
 			s.send(fmt.Sprintf("(set-option :sat.random_seed %d)", seed%100000))
@@ -78,6 +88,7 @@ func (s *Solver) ResetAll() {
 	s.send("(reset)")
 	if s.kind != "cvc5" {
 		s.send("(set-option :produce-models true)")
+		s.send(fmt.Sprintf("(set-option :timeout %d)", queryTimeoutMS))
 	}
 	s.level = 0
 	s.scopes = [][]*Term{nil}
